@@ -69,13 +69,14 @@ func init() {
 			"(K-daytx) whole transactions, never single postings, are added to or dropped from a day;",
 			"(K-insert, K-report-amounts) the balance report adds each posting with a non-nil mapped account exactly once on every path, keyed by the transaction's date, and nothing but Report.Insert's lazy initialisation ever writes a node's amounts;",
 			"(K-delta) the Delta row is Totals()#0 after Plus(Totals()#1), not negated, with no Minus on the flow.",
+			"(K-decimal-config) no function of the module writes a package variable of shopspring/decimal (DivisionPrecision …): reciprocals and products are truncated, not rounded by the library;",
 		},
 		NotDecided: []string{
 			"that shopspring/decimal is exact (trusted);",
 			"anything about filters and mappings (the property excludes them);",
 			"a wrong-but-symmetric value (that is C03).",
 		},
-		Rules: []Rule{RuleCPosting, RuleCPostings, RuleJPair, RuleCValue, RuleJValuation, RuleKDayTx, RuleKInsert, RuleKReportAmounts, RuleKDelta},
+		Rules: []Rule{RuleCPosting, RuleCPostings, RuleJPair, RuleCValue, RuleJValuation, RuleKDayTx, RuleKInsert, RuleKReportAmounts, RuleKDelta, RuleKDecimalConfig},
 	})
 }
 
@@ -147,12 +148,13 @@ func init() {
 			"(G1) prices are computed before valuation in every pipeline; (B1) the mirror account is computed from immutable segments.",
 			"(A-order) the loops of the valuation stage over the open positions are complete and order-free: no early success exit after effects, no order-dependent overwrite;",
 			"(G2, K-bfs) the valuation runs before the window filter (positions opened before the window are revalued inside it); the normalized price of a commodity is assigned once, breadth-first from the valuation commodity, so a directly declared price is not replaced by a derived one;",
+			"(K-decimal-config) no function of the module writes a package variable of shopspring/decimal (DivisionPrecision …): reciprocals and products are truncated, not rounded by the library;",
 		},
 		NotDecided: []string{
 			"the values themselves: which day's price is the latest on or before a date, truncation results, chained prices (C12 decides the price function's determinism, not its value);",
 			"that the accumulated gain equals the sum of daily adjustments (arithmetic).",
 		},
-		Rules: []Rule{RuleKPriceMiss, RuleDStateAllPaths, RuleKReval, RuleKBothDirections, RuleKBfs, RuleJValuation, RuleG1, RuleG2, RuleB1, RuleAOrder},
+		Rules: []Rule{RuleKPriceMiss, RuleDStateAllPaths, RuleKReval, RuleKBothDirections, RuleKBfs, RuleJValuation, RuleG1, RuleG2, RuleB1, RuleAOrder, RuleKDecimalConfig},
 	})
 	claim(&Property{
 		ID: "C12",
@@ -164,11 +166,12 @@ func init() {
 			"(D-div) a zero price is rejected before the division;",
 			"(K-price-miss) an unconnected commodity has no price and valuing it is an error.",
 			"(K-prices-order) the order of a day's prices (a later one replaces an earlier one) is never changed: Day.Prices is written only by the builder's append and handed to no function;",
+			"(K-decimal-config) no function of the module writes a package variable of shopspring/decimal (DivisionPrecision …): reciprocals and products are truncated, not rounded by the library;",
 		},
 		NotDecided: []string{
 			"which path's product is used among several chains (breadth-first from V, neighbours in name order, by reading), the 8-digit truncation values, and that the most recent declaration per pair is the one in the table on a given day (that is the price stage's carry-forward, C03).",
 		},
-		Rules: []Rule{RuleAOrder, RuleKBfs, RuleKBothDirections, RuleKPricesOrder, RuleDDiv, RuleKPriceMiss, RuleDStateAllPaths},
+		Rules: []Rule{RuleAOrder, RuleKBfs, RuleKBothDirections, RuleKPricesOrder, RuleDDiv, RuleKPriceMiss, RuleDStateAllPaths, RuleKDecimalConfig},
 	})
 }
 
@@ -223,12 +226,13 @@ func init() {
 			"(A-order, A-sort) the choice is deterministic: candidates and tokens are visited in sorted order, and training over concurrently parsed files is order-free;",
 			"(D-atomic, C-filewrite) --inplace writes through the atomic writer only after a successful parse and render.",
 			"(C-filewrite, D-atomic) with --inplace the result is written only through atomic.WriteFile, after the target was parsed and rendered successfully (no truncating or in-place open of the journal);",
+			"(K-range-text) outside lib/syntax/directives the field Range.Text (the whole file) is only sliced, indexed, measured or copied: the other account of a booking is compared through its extracted text;",
 		},
 		NotDecided: []string{
 			"that the chosen account maximises the Bayes score; that the formatter preserves everything else (C08);",
 			"that the stored account occurs in the training journal (it is a key of the training counts by construction of the candidate loop; not machine-checked).",
 		},
-		Rules: []Rule{RuleCInfer, RuleCInferFresh, RuleKZeroFlow, RuleAOrder, RuleCFileWrite, RuleDAtomic},
+		Rules: []Rule{RuleCInfer, RuleCInferFresh, RuleKZeroFlow, RuleAOrder, RuleCFileWrite, RuleDAtomic, RuleKRangeText},
 	})
 	claim(&Property{
 		ID: "C20",
@@ -276,11 +280,12 @@ func init() {
 			"(F-keywords) the keywords the printer writes for a directive type are keywords after which the parser builds that type;",
 			"(F-directive-types) parser, model and syntax printer agree on the set of directive types;",
 			"(D-atomic, C-filewrite) a file that does not parse or render is not written.",
+			"(K-range-text) outside lib/syntax/directives the field Range.Text (the whole file) is only sliced, indexed, measured or copied;",
 		},
 		NotDecided: []string{
 			"idempotence and equality of the re-parsed tree (no execution); column alignment arithmetic; that fields are printed in the order they are parsed.",
 		},
-		Rules: []Rule{RuleFGap, RuleFFields, RuleFPresence, RuleFKeywords, RuleFDirectiveTypes, RuleDAtomic, RuleCFileWrite},
+		Rules: []Rule{RuleFGap, RuleFFields, RuleFPresence, RuleFKeywords, RuleFDirectiveTypes, RuleDAtomic, RuleCFileWrite, RuleKRangeText},
 	})
 	claim(&Property{
 		ID: "C09",
@@ -305,12 +310,13 @@ func init() {
 			"(F-cells) every type implementing table.cell has a case in TextRenderer.renderCell, TextRenderer.minLengthCell and CSVRenderer.renderCell, and number cells are measured and rendered through the same numToString;",
 			"(F-width-unit) a text cell's content is used only whole or through a character count, at the width site and at the padding site alike (no byte-wise len, copy, slicing or []byte conversion);",
 			"(C-round) the text renderer scales by the write-once constant 1000 only under Thousands and rounds with decimal.StringFixed(Round) (half away from zero); the CSV renderer calls only decimal.String.",
+			"(K-width-all) every cell of every row contributes to its column's width: the width update depends only on the loops over rows and cells and on the comparison with the measured width;",
 		},
 		NotDecided: []string{
 			"digit grouping, padding arithmetic, sign and blank-zero rules, equal line width (arithmetic on runtime strings);",
 			"percent cells (portfolio weights; outside this property).",
 		},
-		Rules: []Rule{RuleFCells, RuleFWidthUnit, RuleCRound},
+		Rules: []Rule{RuleFCells, RuleFWidthUnit, RuleCRound, RuleKWidthAll},
 	})
 }
 
@@ -325,12 +331,13 @@ func init() {
 			"(F-keywords, F-multiline, F-model-only, K-print-pairs) the shared printer writes keywords the parser reads back, terminates multi-line directives with an empty line, prints model content only, and prints exactly one booking line per posting pair whatever the amounts;",
 			"(A-order) no map iteration order reaches the output of an importer.",
 			"(K-builders-all) the pair builders build the postings of every booking they are given (no booking is skipped, so no transaction is left without postings);",
+			"(K-tx-nonempty) an importer builds the postings of a transaction from a list of pair builders only if that list has an element on every path (or under a test of its length): no transaction without bookings is printed;",
 		},
 		NotDecided: []string{
 			"row fidelity: one transaction per row, on the row's date, with the row's signed amount in the row's currency (which column is read, sign conventions, thousands separators): values of runtime strings, no structural reading;",
 			"zero-amount rows and other value-dependent printing paths.",
 		},
-		Rules: []Rule{RuleCStdout, RuleHQuotes, RuleKRegistryOrigin, RuleCPostings, RuleKBuildersAll, RuleFKeywords, RuleFMultiline, RuleFModelOnly, RuleKPrintPairs, RuleAOrder},
+		Rules: []Rule{RuleCStdout, RuleHQuotes, RuleKRegistryOrigin, RuleCPostings, RuleKBuildersAll, RuleFKeywords, RuleFMultiline, RuleFModelOnly, RuleKPrintPairs, RuleAOrder, RuleKTxNonempty},
 	})
 }
 
